@@ -149,7 +149,7 @@ def HOOK(k, o, key="", arg=None, st=""):
         # DriverStationSim.notifyNewData() would call refreshData() itself); the robot sees it at its next poll
         m = dec["dsw"]
         hs.setDriverStationEnabled(m != "disabled")
-        hs.setDriverStationAutonomous(m == "auto")
+        hs.setDriverStationAutonomous(m == "auto" or (m == "disabled" and len(Rec.log) % 2 == 0))
         hs.setDriverStationTest(m == "test")
         hs.notifyDriverStationNewData()
     if dec["raise"]:
@@ -296,7 +296,7 @@ def add_getter(ns, o, key, variant, ty="int", sann=False, inplace=False, base_ns
         def base_getter(self):
             HOOK("feedback", o, key=key + "@base")
             return -12345
-        base_getter.__name__ = ("get_" + key) if variant % 2 == 0 else ("read_" + key)
+        base_getter.__name__ = ("get_" + key) if variant % 2 == 0 else (("_read_" if variant % 4 == 3 else "read_") + key)
         base_ns[base_getter.__name__] = feedback(base_getter) if variant % 2 == 0 else feedback(key=key)(base_getter)
     if ty != "none":
         getter.__annotations__ = {"return": FB_ANN_STR[ty] if sann else FB_ANN[ty]}
@@ -304,7 +304,8 @@ def add_getter(ns, o, key, variant, ty="int", sann=False, inplace=False, base_ns
         getter.__name__ = "get_" + key
         ns[getter.__name__] = feedback(getter)
     else:
-        getter.__name__ = "read_" + key
+        # (with an explicit key the method's own name is free: it may be a private one)
+        getter.__name__ = ("_read_" if variant % 4 == 3 else "read_") + key
         ns[getter.__name__] = feedback(key=key)(getter)
 
 
@@ -624,7 +625,8 @@ def gen_layout(rng, uid):
     for c in comps:
         has[c] = {k: rng.random() < 0.7 for k in ("setup", "on_enable", "on_disable")}
         nr = rng.choice([0, 1, 1, 2])
-        resets[c] = {"r%d" % j: rng.choice([0, 0, 1, 5]) for j in range(nr)}
+        # (a marker may be a private attribute)
+        resets[c] = {("_r%d" if rng.random() < 0.2 else "r%d") % j: rng.choice([0, 0, 1, 5]) for j in range(nr)}
         inherit[c] = [a for a in resets[c] if rng.random() < 0.3]
         plain[c] = {"p": rng.randint(10, 19)}
         if rng.random() < 0.4:
@@ -690,12 +692,22 @@ def gen_layout(rng, uid):
             "robot_split": rng.randint(0, n)}
 
 
+_dis = 0
+
+
 def apply_env(e):
     if e["e"] == "ds":
         m = e["m"]
         DS.setEnabled(m != "disabled")
-        DS.setAutonomous(m == "auto")
-        DS.setTest(m == "test")
+        if m == "disabled":
+            # a disabled robot with autonomous or test still selected on the driver station is disabled all the same
+            global _dis
+            _dis += 1
+            DS.setAutonomous(_dis % 3 == 1)
+            DS.setTest(_dis % 3 == 2)
+        else:
+            DS.setAutonomous(m == "auto")
+            DS.setTest(m == "test")
         DS.notifyNewData()
     elif e["e"] == "fms":
         DS.setFmsAttached(bool(e["b"]))
